@@ -30,6 +30,8 @@ type Clock struct {
 
 	// Fixed, if non-nil, is what Now returns (worlds that script every clock reading).
 	Fixed *time.Time
+	// Quantum > 0: readings are truncated to a multiple of it (a coarse clock).
+	Quantum time.Duration
 }
 
 type segment struct {
@@ -87,7 +89,11 @@ func (c *Clock) InstantOf(reading, hint time.Time) time.Time {
 
 // At returns the clock reading at virtual instant t.
 func (c *Clock) At(t time.Time) time.Time {
-	return t.Add(c.OffsetAt(t)).UTC()
+	r := t.Add(c.OffsetAt(t)).UTC()
+	if c.Quantum > 0 {
+		r = r.Truncate(c.Quantum)
+	}
+	return r
 }
 
 func (c *Clock) Now() time.Time {
